@@ -95,7 +95,9 @@ type env struct {
 	allOps      []op
 	detail      bool
 	jsonRepeats int
-	out         *obs.Writer
+	out         *flushWriter
+	curSubj     string // key of the subject being processed (supervision)
+	curSeed     string
 	nsum        int
 }
 
@@ -217,6 +219,9 @@ var hostArg = map[string]string{"very-long": strings.Repeat("a.", 200) + "exampl
 
 // apply executes one operation on cert; same reports the JSON determinism check.
 func (e *env) apply(cert *x509.Certificate, o op, mode string) (inputs.Result, string) {
+	if r, ok := preOp(e.curSubj, o, mode, e.curSeed); ok {
+		return r, "n/a"
+	}
 	same := "n/a"
 	var f func() error
 	switch o.Op {
@@ -369,7 +374,7 @@ func (s *summary) add(o op, r inputs.Result, same string) {
 // witness keeps one concrete failing case per distinct (operation, argument, outcome) of the
 // summary: the first one seen.
 func (s *summary) witness(o op, res inputs.Result, same, mode, seed string, prog []op, der []byte) {
-	if (res.O == "ok" || res.O == "err" || res.O == "skip") && same != "differs" {
+	if (res.O == "ok" || res.O == "err" || res.O == "skip" || res.O == "notrun") && same != "differs" {
 		return
 	}
 	for _, b := range s.Bad {
@@ -423,6 +428,12 @@ func (e *env) emit(s *summary) {
 // subject: run every program on der in both modes, into s (summary mode) or one summary per
 // (mode) (detail mode)
 func (e *env) subject(base summary, der []byte, seed string, programs [][]op) {
+	e.curSeed = seed
+	if base.Src == "shape" && e.jsonRepeats < 8 {
+		// shapes: enough serialisations that an order decided by a coin flip is seen (> 99 %)
+		defer func(n int) { e.jsonRepeats = n }(e.jsonRepeats)
+		e.jsonRepeats = 8
+	}
 	var s *summary
 	if !e.detail {
 		s = &base
@@ -622,6 +633,15 @@ func main() {
 		obs.Fatal("usage: c02 run|one ...")
 	}
 	a := os.Args[2:]
+	if os.Getenv("VERIF_C02_STATE") == "" {
+		// supervisor: the work happens in worker children of this binary
+		switch os.Args[1] {
+		case "run", "one":
+			supervise(a[3])
+			return
+		}
+	}
+	childInit()
 	switch os.Args[1] {
 	case "run":
 		e := newEnv(a[0], a[1])
@@ -629,21 +649,30 @@ func main() {
 		shard, nshards := atoi(a[4]), atoi(a[5])
 		e.detail = opt(a, 6, "summary") == "detail"
 		only := loadOnly(opt(a, 7, "-"))
-		e.out = obs.NewWriter(a[3])
-		nshape, nmut, inputsN := 0, 0, 0
+		e.out = newFlushWriter(a[3])
 		for i, s := range e.cm.Shapes {
 			if i%nshards != shard || (only != nil && !only.shapes[i]) {
 				continue
 			}
+			e.curSubj = fmt.Sprintf("a%07d", i)
+			if skipSubject(e.curSubj) {
+				continue
+			}
+			beginSubject()
 			der := inputs.BuildShapeCert(s)
 			checkShape(s, der)
 			e.subject(summary{Src: "shape", X: s.X, V: s.V, I: i}, der, "shape", e.cm.Programs)
-			nshape++
+			counters["shapes"]++
 		}
 		for i, p := range progs {
 			if i%nshards != shard || p.K != "cert" || (only != nil && !only.progs[i]) {
 				continue
 			}
+			e.curSubj = fmt.Sprintf("b%07d", i)
+			if skipSubject(e.curSubj) {
+				continue
+			}
+			beginSubject()
 			base := summary{Src: "mut", P: p.P, I: i}
 			var agg *summary
 			for _, sd := range e.seeds.ByKind["cert"] {
@@ -657,7 +686,7 @@ func main() {
 				if !applied {
 					continue
 				}
-				inputsN++
+				counters["mutated_inputs"]++
 				if e.detail {
 					e.subject(base, der, sd.Name, [][]op{e.allOps})
 					continue
@@ -673,19 +702,20 @@ func main() {
 			if agg != nil {
 				e.emit(agg)
 			}
-			nmut++
+			counters["mutated_programs"]++
 		}
 		e.out.Close()
-		obs.Stat("shapes", nshape)
-		obs.Stat("mutated_programs", nmut)
-		obs.Stat("mutated_inputs", inputsN)
-		obs.Stat("summaries", e.nsum)
+		for _, k := range []string{"shapes", "mutated_programs", "mutated_inputs", "calls_not_run"} {
+			obs.Stat(k, counters[k])
+		}
 	case "one":
 		e := newEnv(a[0], a[1])
 		e.detail = true
 		var c replayCase
 		obs.ReadReplay(a[2], &c)
-		e.out = obs.NewWriter(a[3])
+		e.out = newFlushWriter(a[3])
+		e.curSubj = "a0000000"
+		beginSubject()
 		e.jsonRepeats = 16
 		var der []byte
 		if c.Src == "shape" {
@@ -726,6 +756,7 @@ func main() {
 
 // mergeSubject: like subject for the all-operations program, accumulating into agg.
 func (e *env) mergeSubject(agg *summary, der []byte, seed string) {
+	e.curSeed = seed
 	for _, mode := range e.model.Modes {
 		agg.N++
 		var cert *x509.Certificate
